@@ -41,7 +41,7 @@ func unmanagedProjection(d *mcisco.Device) string {
 	var b strings.Builder
 	fixed := map[string]bool{"manual_acl": true, "capture_acl": true, "mgmt_in": true, "admin-hosts": true}
 	marked := func(s string) bool {
-		return strings.Contains(s, "kept") || strings.Contains(s, "Kept") || strings.Contains(s, "MANUAL") ||
+		return strings.Contains(s, "mgmt_") || strings.Contains(s, "kept") || strings.Contains(s, "Kept") || strings.Contains(s, "MANUAL") ||
 			strings.Contains(s, "ManualSplit") || strings.Contains(s, "AdminPolicy") || strings.Contains(s, "admin-pool")
 	}
 	for _, a := range d.ACLs {
